@@ -56,6 +56,17 @@ Theorem c19_frame : forall segs v e c k k' r r',
 Proof. exact frame_key. Qed.
 Print Assumptions c19_frame.
 
+(* a position that leaves the path at an index step (same list, another index): what
+   was there is still there (lists only grow at the end; positions that did not exist
+   before may now hold {}; a position that expects another kind of container than the
+   path does - the documented replacement of non-object intermediates - is not framed) *)
+Theorem c19_frame_index : forall segs v e c j j' r r' x,
+  steps_of segs = Some (c ++ IS j' :: r')%list -> j <> j' ->
+  lookup (c ++ IS j :: r) e = Some x ->
+  lookup (c ++ IS j :: r) (set_segs segs v e) = Some x.
+Proof. exact frame_index. Qed.
+Print Assumptions c19_frame_index.
+
 (* top-level fields the path does not name are untouched, for every path (also
    malformed ones and negative indices) *)
 Theorem c19_frame_top : forall segs v kvs k kvs',
@@ -196,6 +207,18 @@ Example c19_ex_parse :
   parse_path "a.b[2].c[-1].d[x].e[ 1_0 ]"
   = [SKey "a"; SIdx "b" 2; SIdx "c" (-1); SBad; SIdx "e" 10].
 Proof. vm_compute. reflexivity. Qed.
+
+(* frame instances on the example env below: sibling key and sibling index survive *)
+Example c19_ex_frame :
+  let e := VObj [("a", VObj [("b", VStr "old"); ("keep", VNum (NInt 7))]);
+                 ("l", VList [VStr "x"; VObj [("q", VNum (NInt 1))]])] in
+  steps_of (parse_path "a.b") = Some ([KS "a"] ++ KS "b" :: [])%list /\
+  lookup ([KS "a"] ++ KS "keep" :: [])%list (set_segs (parse_path "a.b") (VStr "***") e)
+    = Some (VNum (NInt 7)) /\
+  steps_of (parse_path "l[3].q") = Some ([KS "l"] ++ IS 3 :: [KS "q"])%list /\
+  lookup ([KS "l"] ++ IS 1 :: [KS "q"])%list (set_segs (parse_path "l[3].q") (VStr "***") e)
+    = Some (VNum (NInt 1)).
+Proof. vm_compute. repeat split; reflexivity. Qed.
 
 Example c19_ex_in_unit : in_unit half.
 Proof. split; vm_compute; reflexivity. Qed.
